@@ -286,7 +286,7 @@ def apply_contract(I, con, args, kwargs, fi=None, callee_label=None):
     if con.emits is not None:
         con.emits(spec, ctx, **views)
     apply_writes(I, con, spec, views)
-    if con.has_events:
+    if con.has_events and con.emits is None:
         # the callee may append events: havoc the trace, keeping the prefix
         ntr, nlen = fresh("tr", EvArr), fresh("trlen", z3.IntSort())
         k = z3.Int("tk")
